@@ -214,23 +214,18 @@ theorem applyVec_map_some (row vals : List Val) (h : row.length = vals.length) :
       simp only [applyVec, List.map_cons, List.zipWith_cons_cons, Option.getD_some, List.cons.injEq, true_and]
       exact ih ys (by simpa using h)
 
-/-- with every restore on the default database, the databases are independent: what database `d`
-    looks like after a history is what its own operations alone make of it -/
+/-- the databases are independent: what database `d` looks like after a history is what its own
+    operations alone make of it -/
 theorem drun_proj (c : VCfg) (ops : List (Nat × VOp)) :
-    ∀ (S : DState), restoresLocal ops = true → ∀ d,
+    ∀ (S : DState) (d : Nat),
       (drun c S ops) d = vrun c (S d) ((ops.filter (fun p => p.1 = d)).map (·.2)) := by
   induction ops with
-  | nil => intro S _ d; rfl
+  | nil => intro S d; rfl
   | cons p ops ih =>
-    intro S h d
+    intro S d
     obtain ⟨d', op⟩ := p
-    simp only [restoresLocal, List.all_cons, Bool.and_eq_true, Bool.not_eq_true'] at h
-    have hstep : dstep c S d' op = (dset S d' (vstep c (S d') op).1, (vstep c (S d') op).2) := by
-      simp only [dstep]
-      rw [h.1]
-      simp
-    simp only [drun, hstep]
-    rw [ih _ (by simpa [restoresLocal] using h.2) d]
+    simp only [drun, dstep]
+    rw [ih _ d]
     by_cases hd : d' = d
     · subst hd
       simp [dset, vrun]
